@@ -79,6 +79,16 @@ CHECKS = {
         note='Trusted: TLC, shims, the SIGALRM wall-clock cap. The open-ended half of the property is exploration over a generated grid, not '
              'a proof (level_note in DESIGN.md section 7). Remaining 500s are listed one by one in known_findings.json by exception type and call site.',
         design='4 C16'),
+    'C17': dict(
+        technique='TLA+ spec Store.tla/StoreMC.tla: TLC over all management histories to depth 7 on the implementation-shaped abstract store; '
+                  'scripted + seeded histories through the real HTTP management API with the SQLite rows projected after every step; TLC trace validation',
+        text='TLC explores every history of add/delete stream, upload(+index), delete media, set timing reference, add/delete key, add/delete '
+             'multi-period stream over 2 directories x 2 names; the same alphabet (plus non-existing objects and an encrypted file) is driven '
+             'through the real API as the media user; after every operation the tables and blob folder are projected to the abstract store, '
+             'all listed streams / multi-period streams have their manifests fetched, indexed files are read back, and TLC evaluates referential '
+             'integrity, name uniqueness, exact deletion and serve-or-4xx on every step.',
+        note='Trusted: TLC, sqlite3 projection, shims. Histories replayed on the code are scripted/random over the model alphabet (not '
+             'model-emitted). Known findings are matched by clause + history pattern.', design='4 C17'),
     'C20': dict(
         technique='TLA+ spec BufferedReader.tla: TLC exhaustive refinement check (implementation-shaped cache model vs '
                   'in-memory stream) + every model edge replayed on the real class + TLC trace validation of recorded calls',
